@@ -109,6 +109,15 @@ func (f *Frame) instr(in ssa.Instruction, guard string, st *State) {
 	case *ssa.MakeMap:
 		r := e.newRef(st, "map")
 		f.set(x, Val{T: r})
+		if mt, ok := x.Type().Underlying().(*types.Map); ok {
+			// a new map has no keys and length 0
+			n, _, psort := f.mapHeap(mt)
+			pres := e.getHeap(st, n+"_p", psort)
+			ks := e.tt().sortOf(mt.Key())
+			e.setHeap(st, n+"_p", psort, fmt.Sprintf("(store %s %s ((as const (Array %s Bool)) false))", pres, r, ks))
+			ln := e.getHeap(st, n+"_n", "(Array Int Int)")
+			e.setHeap(st, n+"_n", "(Array Int Int)", fmt.Sprintf("(store %s %s 0)", ln, r))
+		}
 	case *ssa.MapUpdate:
 		f.mapUpdate(x, st)
 	case *ssa.MakeClosure:
@@ -128,6 +137,23 @@ func (f *Frame) instr(in ssa.Instruction, guard string, st *State) {
 			fv := f.freshVal(fmt.Sprintf("%s_%d", x.Name(), i), tup.At(i).Type())
 			e.assert(e.wfVal(fv.T, tup.At(i).Type(), st.alloc))
 			vs = append(vs, fv)
+		}
+		if rg, ok := x.Iter.(*ssa.Range); ok && !x.IsString {
+			if mt, ok := rg.X.Type().Underlying().(*types.Map); ok && len(vs) == 3 {
+				// a produced (key, value) pair is an entry of the map at this moment
+				n, vsort, psort := f.mapHeap(mt)
+				mv := f.val(rg.X)
+				if b, isB := tup.At(1).Type().(*types.Basic); isB && b.Kind() == types.Invalid {
+					vs[1] = f.freshVal(x.Name()+"_key", mt.Key()) // unused key: some key
+				}
+				if b, isB := tup.At(2).Type().(*types.Basic); isB && b.Kind() == types.Invalid {
+					vs[2] = f.freshVal(x.Name()+"_val", mt.Elem())
+				}
+				vals := e.getHeap(st, n+"_v", vsort)
+				pres := e.getHeap(st, n+"_p", psort)
+				e.assert(implies(vs[0].T, and(fmt.Sprintf("(select (select %s %s) %s)", pres, mv.T, vs[1].T),
+					eq(fmt.Sprintf("(select (select %s %s) %s)", vals, mv.T, vs[1].T), vs[2].T))))
+			}
 		}
 		f.set(x, Val{Tuple: vs})
 	case *ssa.Call:
@@ -510,6 +536,8 @@ func (f *Frame) mapUpdate(x *ssa.MapUpdate, st *State) {
 	pres := e.getHeap(st, n+"_p", psort)
 	e.setHeap(st, n+"_v", vsort, fmt.Sprintf("(store %s %s (store (select %s %s) %s %s))", vals, mv.T, vals, mv.T, kv.T, vv.T))
 	e.setHeap(st, n+"_p", psort, fmt.Sprintf("(store %s %s (store (select %s %s) %s true))", pres, mv.T, pres, mv.T, kv.T))
+	ln := e.getHeap(st, n+"_n", "(Array Int Int)")
+	e.setHeap(st, n+"_n", "(Array Int Int)", fmt.Sprintf("(store %s %s (ite (select (select %s %s) %s) (select %s %s) (+ (select %s %s) 1)))", ln, mv.T, pres, mv.T, kv.T, ln, mv.T, ln, mv.T))
 }
 
 // ---------- arithmetic ----------
